@@ -46,6 +46,10 @@ def gen(ctx):
     cases.append(dict(n=N, acts=[['start'] + PARAMS[0], ['advance', 0], ['enter'], ['readerr'], ['exitexc'], ['advance', 0],
                                  ['enter'], ['enter'], ['exitexc'], ['advance', 0], ['exit'], ['advance', 0], ['advance', 0]],
                       probe=[]))
+    # a read-only handle: explicit requests for write access while generators are suspended
+    cases.append(dict(n=N, mode='r', acts=[['start'] + PARAMS[0], ['advance', 0], ['enterrw'], ['read', 5], ['exit'], ['advance', 0],
+                                          ['start'] + PARAMS[1], ['advance', 1], ['enter'], ['enterrw'], ['exit'], ['advance', 1],
+                                          ['exit'], ['advance', 0], ['advance', 0], ['advance', 1], ['close', 1]], probe=[]))
     for _ in range(120 if ctx.quick else 1200):
         acts, gst, depth, probe = [], [], 0, []
         curlen = N
@@ -120,6 +124,7 @@ def act_term(a):
     if k == 'close': return f"(AClose {a[1]}%nat)"
     if k == 'enter': return "AEnter"
     if k in ('exit', 'exitexc'): return "AExit"
+    if k == 'enterrw': return "AEnter"
     if k == 'read': return f"(ARead {cz(a[1])})"
     if k == 'write': return f"(AWrite {cz(a[1])} {cz(a[2])})"
     if k == 'grow': return f"(AResize {cz(a[2])})"
